@@ -884,6 +884,24 @@ public:
             XPathExecutionContext&  executionContext) const;
 
     /**
+     * Get the match score of one alternative of a match pattern for the
+     * specified node.  The alternatives of a pattern such as "a | b[1]" are
+     * numbered from 0, in the order getTargetData() reports them.
+     *
+     * @param node The node for the score
+     * @param resolver The prefix resolver
+     * @param executionContext current execution context
+     * @param theAlternative The index of the alternative
+     * @return The match score of that alternative
+     */
+    eMatchScore
+    getMatchScore(
+            XalanNode*              node,
+            const PrefixResolver&   resolver,
+            XPathExecutionContext&  executionContext,
+            size_t                  theAlternative) const;
+
+    /**
      * Evaluate a predicate.
      *
      * @param context          current source tree context node
